@@ -80,6 +80,57 @@ fn table_of(ev: &Evaluator, e: &syn::Expr) -> Result<Table, String> {
     }
 }
 
+/// C15.index: a character of a FROM constraint is located in the base type's character set by `find_char_index` /
+/// `find_string_index`; ranges are then rebuilt from the *indices*. The two functions are evaluated themselves (elsewhere
+/// they are stubbed) on character sets in which the index is not the code point — the set of BMPString / UniversalString
+/// skips the 2048 surrogates, NumericString starts at SPACE: the answer is the position of the character in the set, and
+/// a character that is not in the set is an error.
+fn char_index(m: &Model, ctx: &mut Ctx) {
+    let rule = "C15.index";
+    let consts = const_resolver(m);
+    let inl = inline_all(m, &[]);
+    let ev = Evaluator { consts: &consts, call_hook: &crate::eval::no_hook, inline: Some(&inl) };
+    // (label, set as (index, char) pairs in index order)
+    let sets: Vec<(&str, Vec<char>)> = vec![
+        ("starts-at-NUL-with-a-gap", vec!['\0', 'a', 'c', 'z', '\u{E000}']),
+        ("starts-at-SPACE", vec![' ', '0', '1', '2']),
+        ("single", vec!['x']),
+    ];
+    for fname in ["find_char_index", "find_string_index"] {
+        let Ok(f) = m.find_fn(None, fname, None) else {
+            ctx.fail_closed(rule, &format!("anchor not found: {}", fname));
+            continue;
+        };
+        ctx.func(&f.key);
+        let params: Vec<(String, String)> = f.sig.inputs.iter().filter_map(|a| match a { syn::FnArg::Typed(t) => Some((tok(&t.pat), tok(&t.ty))), _ => None }).collect();
+        for (label, set) in &sets {
+            let pairs = Val::List(set.iter().enumerate().map(|(i, c)| Val::Tuple(vec![Val::int(i as i128), Val::Char(*c)])).collect());
+            let mut probes: Vec<(char, Option<usize>)> = set.iter().enumerate().map(|(i, c)| (*c, Some(i))).collect();
+            probes.push(('b', None));
+            probes.push(('\u{FFFD}', None));
+            for (c, want) in probes {
+                ctx.oblige(rule, &format!("{}:{}:{:?}", fname, label, c), true);
+                let mut env = Env::new();
+                for (pn, pt) in &params {
+                    env.insert(pn.clone(), if pt.contains("BTreeMap") { pairs.clone() } else if pt.contains("char") { Val::Char(c) } else { Val::Str(c.to_string()) });
+                }
+                let got = match ev.eval_fn_body(&f.block, &mut env) {
+                    Ok(Val::Ctor(ok, p, _)) if ok == "Ok" => match p.first() { Some(Val::Int { v, .. }) => Ok(Some(*v as usize)), o => Err(format!("Ok({})", o.map(|v| v.show()).unwrap_or_default())) },
+                    Ok(Val::Ctor(e, _, _)) if e == "Err" => Ok(None),
+                    Ok(o) => Err(o.show().chars().take(80).collect()),
+                    Err(e) => Err(e),
+                };
+                match got {
+                    Ok(g) if g == want => {}
+                    Ok(g) => ctx.violate(rule, &format!("{}:wrong-index", fname), &f.file, f.line,
+                        &format!("{} on the character {:?} in the set {:?} (index = position): answers {:?}, the position is {:?} — a range bound is rebuilt from the index, so `FROM (\"\\u{{E000}}\"..\"\\u{{E0FF}}\")` on a BMPString (whose set skips the surrogates) would come out shifted or open", fname, c, set, g, want)),
+                    Err(e) => ctx.fail_closed(rule, &format!("[{} {} {:?}]: {}", fname, label, c, e)),
+                }
+            }
+        }
+    }
+}
+
 pub fn run(m: &Model, ctx: &mut Ctx) {
     ctx.explanation = "C15.sets/C15.order: the character table of each known-multiplier string type (reached through the CharacterStringType -> static match in character_set()) is evaluated from its initialiser \
 (char array literal, or code-point range filtered through char::from_u32) and must equal the normative alphabet of X.680 §41 in canonical (ascending code point) order — ranges, `lower > upper` tests and open ends are all computed on table indices, so both the set and the order are necessary for FROM ranges to denote the ASN.1 set. \
@@ -103,6 +154,7 @@ Not decided: the folding of FROM set expressions (unions/intersections) and seri
     let km: Vec<String> = reference["known_multiplier"].as_array().cloned().unwrap_or_default().iter().filter_map(|v| v.as_str().map(|s| s.to_string())).collect();
 
     // ---- character_set(): type -> static -> table ----
+    char_index(m, ctx);
     if let Some(f) = anchor_fn(m, ctx, "C15.sets", Some("CharacterStringType"), "character_set", None) {
         let statics: BTreeMap<String, &crate::model::ConstInfo> = m.consts.iter().filter(|c| c.is_static && c.in_fn.as_deref() == Some(f.key.as_str())).map(|c| (c.name.clone(), c)).collect();
         ctx.floor("C15.sets/tables", statics.len(), 5);
